@@ -71,39 +71,7 @@ func checkC06(r *Run) {
 		}
 	}
 	// ---- R-C06-2
-	rp := c.Func("readPacket")
-	if rp == nil {
-		r2.Lost("readPacket", "not found")
-	} else {
-		n := 0
-		eachInstr(rp, func(in ssa.Instruction) {
-			mk, ok := in.(*ssa.MakeSlice)
-			if !ok {
-				return
-			}
-			n++
-			if k, ok := constInt(mk.Len); ok {
-				if k >= 0 && k <= 0xFFFFFFF {
-					r2.OKt("readPacket/make", in.Pos(), "constant length %d", k)
-				} else {
-					r2.Bad("readPacket/make", in.Pos(), "constant length %d out of range", k)
-				}
-				return
-			}
-			wa := &widthAnalysis{c: c, memo: map[ssa.Value]int{}, prog: map[ssa.Value]bool{}}
-			w := wa.width(mk.Len)
-			limit := 28
-			if w <= limit && w < c.wordBits-1 {
-				r2.OK("readPacket/make", in.Pos(), "the body length has at most %d significant bits and is non-negative: at most %d bytes are requested for one packet (int is %d bits)", w, (1<<uint(w))-1, c.wordBits)
-			} else {
-				r2.Bad("readPacket/make", in.Pos(), "the body length can have %d significant bits (limit %d for the 268,435,455-byte protocol maximum; int is %d bits): a peer sending continuation bits in the remaining-length field makes the client allocate an over-sized (or negative-length, panicking) buffer, and wait for that many bytes instead of ending the link. %s", w, limit, c.wordBits, wa.note)
-			}
-		})
-		// the header buffer
-		if n == 0 {
-			r2.Lost("readPacket/make", "no body allocation found")
-		}
-	}
+	c.ruleBodyLengthBound(r2)
 	// ---- R-C06-3
 	c.rulePanicSources(r3, rs)
 	// ---- R-C06-4
@@ -1125,5 +1093,42 @@ func (c *Ctx) ruleServeNeverNil(rr *RuleRep) {
 	}
 	if n == 0 {
 		rr.Lost("serve/returns", "serve has no return")
+	}
+}
+
+// ruleBodyLengthBound (R-C06-2, also R-C11-8): the packet body allocation in readPacket is non-negative and at most 2^28-1.
+func (c *Ctx) ruleBodyLengthBound(r2 *RuleRep) {
+	rp := c.Func("readPacket")
+	if rp == nil {
+		r2.Lost("readPacket", "not found")
+	} else {
+		n := 0
+		eachInstr(rp, func(in ssa.Instruction) {
+			mk, ok := in.(*ssa.MakeSlice)
+			if !ok {
+				return
+			}
+			n++
+			if k, ok := constInt(mk.Len); ok {
+				if k >= 0 && k <= 0xFFFFFFF {
+					r2.OKt("readPacket/make", in.Pos(), "constant length %d", k)
+				} else {
+					r2.Bad("readPacket/make", in.Pos(), "constant length %d out of range", k)
+				}
+				return
+			}
+			wa := &widthAnalysis{c: c, memo: map[ssa.Value]int{}, prog: map[ssa.Value]bool{}}
+			w := wa.width(mk.Len)
+			limit := 28
+			if w <= limit && w < c.wordBits-1 {
+				r2.OK("readPacket/make", in.Pos(), "the body length has at most %d significant bits and is non-negative: at most %d bytes are requested for one packet (int is %d bits)", w, (1<<uint(w))-1, c.wordBits)
+			} else {
+				r2.Bad("readPacket/make", in.Pos(), "the body length can have %d significant bits (limit %d for the 268,435,455-byte protocol maximum; int is %d bits): a peer sending continuation bits in the remaining-length field makes the client allocate an over-sized (or negative-length, panicking) buffer, and wait for that many bytes instead of ending the link. %s", w, limit, c.wordBits, wa.note)
+			}
+		})
+		// the header buffer
+		if n == 0 {
+			r2.Lost("readPacket/make", "no body allocation found")
+		}
 	}
 }
